@@ -347,14 +347,22 @@ func runC15(ctx *core.Ctx, idx int) *core.Result {
 			case "open-write":
 				if kindOf(entries, rel) == "file" {
 					mods[rel]++
-				} else if !isTempFor(rel, model) {
+				} else if kindOf(entries, rel) != "" || !isTempFor(rel, model) {
 					res.Violate("C15/unexpected-file-created", e.Raw, rep)
 					return res
 				}
+			case "rename-dest":
+				// an atomic replace: the rename onto the target is its one modification
+				if e.OK {
+					mods[rel]++
+				}
 			case "mutate":
-				if e.Sys == "rename" || e.Sys == "renameat" || e.Sys == "renameat2" {
-					// destination counts as the modification of the target
-					continue
+				if strings.HasPrefix(e.Sys, "rename") {
+					continue // source side of the rename (the temporary file)
+				}
+				if kindOf(entries, rel) != "" {
+					res.Violate("C15/unexpected-mutation", e.Raw, rep)
+					return res
 				}
 			}
 		}
@@ -368,6 +376,12 @@ func runC15(ctx *core.Ctx, idx int) *core.Result {
 		for p, n := range reads {
 			if !inModel[p] && n > 0 {
 				res.Violate("C15/unrequested-file-read", p, rep)
+				return res
+			}
+		}
+		for _, m := range model {
+			if mods[m] != 1 {
+				res.Violate("C15/file-not-modified-exactly-once", fmt.Sprintf("%s modified %d times", m, mods[m]), rep)
 				return res
 			}
 		}
